@@ -101,6 +101,37 @@ def check_loaded(ctx, w, db, id_attr, order, desc):
 			if len(seen) != n:
 				ctx.violation('genome-list-incomplete', f'query {qi}: {len(seen)} distinct genomes reported of {n}', desc)
 				return
+	# one query running while another one is served from the same loaded database: the caller's progress hook (a documented
+	# parameter) starts a second query after the first row of the first chunk was computed, then lets the first one continue
+	if len(qs) >= 2 and n >= 2:
+		state = dict(fired=False, inner=None)
+
+		class Meter:
+			def __init__(self): self.n = 0
+			def increment(self, delta=1):
+				self.n += delta
+				if not state['fired']:
+					state['fired'] = True
+					state['inner'] = query(db, qs[::-1], QueryParams(report_closest=n + 3, chunksize=2))
+			def moveto(self, v): self.n = v
+			def close(self): pass
+			def __enter__(self): return self
+			def __exit__(self, *a): pass
+
+		def factory(total, initial=0, **kw):
+			return Meter()
+		outer = query(db, qs, QueryParams(report_closest=n + 3, chunksize=3), progress=factory)
+		ctx.count('interleaved_queries_on_one_database' if state['fired'] else 'interleaving_hook_never_called')
+		for name, res, order in (('the query that was running', outer, list(range(len(qs)))), ('the query started meanwhile', state['inner'], list(range(len(qs)))[::-1])):
+			if res is None:
+				continue
+			for qi, item in zip(order, res.items):
+				for m in item.closest_genomes:
+					gi = by_key[m.genome.key]
+					ctx.evals += 1
+					if J.bits(m.distance) != J.bits(w.dist(qi, gi)):
+						ctx.violation('distance-from-foreign-signature', f'two queries interleaved on one loaded database ({name}): distance reported for {m.genome.key} is {float(m.distance)!r}, its own signature gives {w.dist(qi, gi)!r}', dict(desc, interleaved=True))
+						return
 
 
 def run_pos(sh, ctx):
@@ -361,7 +392,7 @@ def finalize(merged, tier, seed, inconclusive):
 	c = merged['counters']
 	need = [f'id_attr:{a}' for a in ID_ATTRS] + ['order:random', 'order:reversed', 'with_unrelated_signatures', 'negative:dropped-signature', 'negative:renamed-id',
 	        'negative:id_attr-none', 'negative:id_attr-misspelt', 'negative:null-id-column', 'negative:ids-of-wrong-kind', 'negative:dir:two-gdb', 'negative:dir:no-signature-file',
-	        'directory_ok:db+h5', 'cli_commands', 'big_databases']
+	        'directory_ok:db+h5', 'cli_commands', 'big_databases', 'interleaved_queries_on_one_database']
 	for n in need:
 		if c.get(n, 0) == 0:
 			inconclusive.append(f'class never observed: {n}')
